@@ -12,6 +12,7 @@ from __future__ import annotations
 import argparse
 import faulthandler
 import json
+import os
 import sys
 import time
 
@@ -41,7 +42,7 @@ def cmd_explore(a):
 
                     rec, rr = enumerate_faults.run_program(seed, a.tier)
                 else:
-                    rec, rr = run_seed(a.prop, seed, a.tier, profile=a.profile)
+                    rec, rr = run_seed(a.prop, seed, a.tier, profile=a.profile, overrides=wide_slot(a, n))
             except Exception as e:  # harness failure: never a violation
                 import traceback
 
@@ -71,7 +72,7 @@ def cmd_explore(a):
                 agg["perturb"][kk] = agg["perturb"].get(kk, 0) + v
             for kk, v in rr.probes.items():
                 agg["probes"][kk] = agg["probes"].get(kk, 0) + v
-            slim = {"seed": rec["seed"], "steps": rec["steps"], "digest": rec["digest"], "harness": rec.get("harness")}
+            slim = {"seed": rec["seed"], "profile": rec.get("profile"), "steps": rec["steps"], "digest": rec["digest"], "harness": rec.get("harness")}
             if rec["violations"] or rec.get("harness"):
                 slim.update({"violations": rec["violations"], "cfg": rec["cfg"], "recipes": rec["recipes"], "profile": rec.get("profile")})
             elif n <= 2:
@@ -99,6 +100,19 @@ def cmd_explore(a):
             "slowest": agg.get("slowest"),
         }
         f.write(json.dumps(summ) + "\n")
+
+
+def wide_slot(a, n):
+    """Large product spaces (the `wide` scenario, 20-45 s per run) are scheduled, not drawn: the first
+    run of every fourth worker (so that a quick check does not overrun its budget), plus every 25th
+    run of every worker in the thorough tier. Twin-run properties execute every run several times
+    and do without."""
+    if a.prop in ("C08", "C14", "C15", "C18") or os.environ.get("VERIF_NO_WIDE"):
+        return None
+    first = n == 1 and a.offset % 4 == 0
+    if first or (a.tier == "thorough" and n % 25 == 0):
+        return {"scenario": "wide", "wide_size": "big" if ((a.offset // 4) + n) % 2 == 1 else "small"}
+    return None
 
 
 def g_ops(rec):
